@@ -2,7 +2,10 @@
 from __future__ import annotations
 
 import copy
+import math
 from fractions import Fraction
+
+import numpy as np
 
 from .. import gen1, impl1
 from ..core import rs
@@ -17,6 +20,58 @@ REFUSALS_STATIC = ["iadd_incompatible", "coll_add_incompatible"]
 REFUSALS_ANY = ["isub_negative", "fill_n_wshape", "imul_negative", "imul_array", "idiv_zero", "set_dtype", "merge"]
 BIG_W = 1048576          # 2^20: a weight no content of the histories below can reach
 INVALID = "invalid"      # oracle marker: the statistics of this register must read as invalid
+
+# the stream "content type narrower than the weights" (gen_narrow_content) and the stream "invalid statistics stay invalid
+# under every later operation" (gen_invalid_history): switches for the whole streams
+ENABLE_NARROW_CONTENT = True
+ENABLE_INVALID_HISTORY = True
+NARROW_LARGE_DTYPES = ["float16", "float32", "int16"]      # the large cases take them in turn (by case index)
+READINGS = ("weight", "sum", "sum2", "min", "max", "median", "mean()", "variance()", "std()")
+TRANSFORMED = ("RadialHistogram", "AzimuthalHistogram")
+
+
+def _tok(x) -> str:
+    """one reading of the statistics as a token: "nan", "inf", "-inf", an exact rational, or what else it is"""
+    try:
+        a = np.asarray(x, dtype=float)
+    except Exception:
+        return "unreadable:" + type(x).__name__
+    if a.size != 1:
+        return f"array{list(a.shape)}"
+    x = float(a.reshape(-1)[0])
+    if math.isnan(x):
+        return "nan"
+    if math.isinf(x):
+        return "inf" if x > 0 else "-inf"
+    return rs(x)
+
+
+def read_all(h) -> dict:
+    """EVERY number the statistics offer (the five fields, the median, mean(), variance(), std()), as tokens"""
+    st = h.statistics
+    out = {f: _tok(getattr(st, f)) for f in ("weight", "sum", "sum2", "min", "max", "median")}
+    for f in ("mean", "variance", "std"):
+        try:
+            with np.errstate(all="ignore"):
+                out[f + "()"] = _tok(getattr(st, f)())
+        except ZeroDivisionError:
+            out[f + "()"] = "nan"
+        except Exception as e:          # reported by the oracle where the statistics must read as invalid
+            out[f + "()"] = "raised:" + type(e).__name__
+    return out
+
+
+def snap(h) -> dict:
+    return {**impl1.snap1(h), "_all": read_all(h), "_class": type(h).__name__}
+
+
+def numbers_of(snapshot) -> list:
+    """the readings of a snapshot that are not NaN (for statistics that must read as invalid: all of them must be NaN)"""
+    allr = snapshot.get("_all")
+    if allr is None:        # (a snapshot taken by the generic runner: the older, partial test)
+        st = snapshot["stats"]
+        return ["weight/sum"] if st["valid"] else list(st.get("_numbers") or [])
+    return [f"{f} = {allr[f]}" for f in READINGS if allr.get(f) != "nan"]
 
 
 def inrange_values(rng, pairs, n):
@@ -45,11 +100,12 @@ def dy_bins(rng):
 class C14(Hist1Prop):
     ID = "C14"
     GEN_TIE = ["statistics"]     # definitions regenerated from physt/statistics.py (harness/gen_tie.py)
-    N_QUICK = 300
+    N_QUICK = 400
     N_THOROUGH = 8000
     RULE = ("in-range dyadic data and weights entered through h1(), fill() and fill_n() (random chunkings), sums of partial "
             "histograms, copies, positive rescalings (powers of two), then the operations that must invalidate the statistics "
-            "(subtraction, construction from bare frequencies, slicing); one case in three is a random HISTORY on one histogram (fill, "
+            "(subtraction, construction from bare frequencies, slicing) followed by fills into the histograms without statistics "
+            "(every reading must stay NaN after every step); one case in three is a random HISTORY on one histogram (fill, "
             "fill_n, *= /= * / by powers of two, in-place normalize, copy, + a histogram of further data) whose statistics are "
             "compared after every step with the raw data entered so far (weights rescaled); every history is also run without "
             "reading the histogram between the operations; one case in six (stream:refused_mid_history) is a history on an adaptive / "
@@ -58,8 +114,21 @@ class C14(Hist1Prop):
             "bins; -= / - that would go negative; fill_n with a wrong weights shape; *= by a negative number or an array; /= 0; "
             "refused set_dtype / merge_bins / HistogramCollection.add) alternate with accepted fills, batches, additions and "
             "rescalings, the statistics being compared EXACTLY after every step (the refused ones included) with the data entered by "
-            "the accepted steps. non-trivial = at least 2 distinct values entered (there: a planned refusal really refused, with "
-            "data entered before and after it); "
+            "the accepted steps; one case in twelve (stream:invalid_history) starts from a histogram whose statistics cannot be known "
+            "(bare frequencies, a proper slice, a projection of a 2-D / polar histogram, read back from a dict / JSON, a subtraction, "
+            "array arithmetic under free arithmetics, a sum / copy of such; Histogram1D, RadialHistogram, AzimuthalHistogram) and goes "
+            "on with fill (one / several, with and without weight), h << x, fill_n, + / += with partners built from data and partners "
+            "without statistics in both orders, * / *= /=, copy, merge_bins, set_dtype, normalize, write / read, array arithmetic: after "
+            "EVERY step ALL of weight, sum, sum2, min, max, median, mean(), variance(), std() of every such histogram must be NaN "
+            "(the cases made of operations the Lean model has go through the model too, the others through the oracle only); one "
+            "case in twenty-four (stream:narrow_content) has a content dtype (float16 / float32 / int16) NARROWER than the float64 / "
+            "int64 weights (tenths, 2**24+1 ..., dyadic) or than the implicit unit weights: h1(data, bins, weights=w, dtype=...), and "
+            "fill_n into an empty histogram of that dtype in one chunk, in chunks, value by value, then a sum, a copy, a rescaling: "
+            "weight / sum / sum2 are the exact sums of the (value, weight) pairs (1e-12 relative where the weights are tenths), min / "
+            "max exact, whatever the content type and the chunking; every third of these has 2150..3100 values, more than 2048 of them "
+            "in one bin (float16, float32, int16 in turn; oracle only, observed at the end). non-trivial = at least 2 distinct values "
+            "entered (refused_mid: a planned refusal really refused, with data entered before and after it; invalid_history: "
+            "something accepted was entered into / added to a histogram without statistics); "
             "distinct = hash of the op list")
     FIELDS = {"stats", "freq"}
 
@@ -425,24 +494,135 @@ class C14(Hist1Prop):
             log.append(f"coll_add: {type(e).__name__}: {e}"[:200])
             return impl1.REFUSED
 
+    # ---- ops run here, outside the generic op language (all through the public API; a refused call gives REFUSED)
+    @staticmethod
+    def _points(ps):
+        return np.array([[impl1.fl(x) for x in p] for p in ps], dtype=float).reshape(-1, 2)
+
+    def _local(self, s, op, log, case):
+        name = op["op"]
+        try:
+            if name == "coll_add":
+                return self._coll_add(s, op, log)
+            if name == "construct_t":       # radial(x, y, bins=...) / azimuthal(x, y, bins=...): built from data
+                import physt.special_histograms as sh
+                pts = self._points(op["ps"])
+                w = None if op.get("weights") is None else impl1.arr(op["weights"], np.dtype(op.get("wkind") or "float64"))
+                facade = sh.radial if op["klass"] == "RadialHistogram" else sh.azimuthal
+                s.set(op["out"], facade(pts[:, 0], pts[:, 1], bins=impl1.mk_binning(op["binning"]), weights=w))
+                return "ok"
+            if name == "empty_t":           # the class over the bins, nothing entered yet
+                import physt.special_histograms as sh
+                s.set(op["out"], getattr(sh, op["klass"])(impl1.mk_binning(op["binning"])))
+                return "ok"
+            if name == "nd_proj":           # a 1-D projection of a 2-D histogram built from data
+                pts = self._points(op["ps"])
+                if op.get("klass") == "polar":
+                    import physt.special_histograms as sh
+                    h2 = sh.polar(pts[:, 0], pts[:, 1], radial_bins=impl1.mk_binning(op["bins"][0]), phi_bins=impl1.mk_binning(op["bins"][1]))
+                else:
+                    import physt
+                    h2 = physt.h2(pts[:, 0], pts[:, 1], [impl1.mk_binning(b) for b in op["bins"]])
+                s.set(op["out"], h2.projection(op["axis"]))
+                return "ok"
+            if name == "reload":            # written and read back: to_dict / from_dict, to_json / parse_json
+                h = s.get(op["h"])
+                if op["via"] == "dict":
+                    r = type(h).from_dict(h.to_dict())
+                else:
+                    from physt.io import parse_json
+                    r = parse_json(h.to_json())
+                s.set(op["out"], r)
+                return "ok"
+            if name == "array_arith":       # h (*, +, -, /) an array, with free arithmetics switched on
+                from physt.config import config
+                h = s.get(op["h"])
+                a = impl1.arr(op["arr"], np.dtype(op.get("ak") or "float64"))
+                with config.enable_free_arithmetics():
+                    if op.get("inplace"):
+                        if op["kind"] == "mul":
+                            h *= a
+                        elif op["kind"] == "add":
+                            h += a
+                        elif op["kind"] == "sub":
+                            h -= a
+                        else:
+                            h /= a
+                        s.set(op["h"], h)
+                    else:
+                        r = h * a if op["kind"] == "mul" else h + a if op["kind"] == "add" else h - a if op["kind"] == "sub" else h / a
+                        s.set(op["out"], r)
+                return "ok"
+            if name == "lshift":            # h << value (h << [x, y] for the transformed classes)
+                h = s.get(op["h"])
+                h << (impl1.fl(op["v"]) if "v" in op else [impl1.fl(x) for x in op["p"]])
+                return "ok"
+            if name == "fill_pt":
+                h = s.get(op["h"])
+                p = [impl1.fl(x) for x in op["p"]]
+                w = impl1.num_of(op["w"], op["wk"])
+                ix = h.fill(p) if (op["wk"] == "pyint" and w == 1 and op.get("default_w")) else h.fill(p, w)
+                return impl1.fb_json(ix, h)
+            if name == "fill_n_pts":
+                h = s.get(op["h"])
+                ws = None if op.get("ws") is None else impl1.arr(op["ws"], np.dtype(op.get("wkind") or "float64"))
+                h.fill_n(self._points(op["ps"]), ws)
+                return "ok"
+            if name == "fill_chunks":       # the data (and weights) of the construct op `data_of`, entered in chunks
+                src = case["ops"][op["data_of"]]
+                vs = impl1.arr(src["data"])
+                ws = None if src.get("weights") is None else impl1.arr(src["weights"], np.dtype(src.get("wkind") or "float64"))
+                h, c = s.get(op["h"]), op["chunk"]
+                for a in range(0, len(vs), c):
+                    h.fill_n(vs[a:a + c], None if ws is None else ws[a:a + c])
+                return "ok"
+            raise KeyError(name)
+        except KeyError:
+            raise
+        except Exception as e:      # refused: the class of the exception is recorded, never compared
+            log.append(f"{name}: {type(e).__name__}: {e}"[:200])
+            return impl1.REFUSED
+
+    LOCAL = ("coll_add", "construct_t", "empty_t", "nd_proj", "reload", "array_arith", "lshift", "fill_pt", "fill_n_pts", "fill_chunks")
+
     def _run(self, case, observe=True):
+        """every C14 case is run here: the generic ops through impl1.step, the others above; every snapshot also holds ALL
+        readings of the statistics (`_all`).  observe=False: nothing is read between the operations.  A case marked
+        `sparse` (thousands of values, some entered one by one) is observed after its last operation only."""
         s, outs, log, ret = impl1.Store(), [], [], None
+        observe = observe and not case.get("sparse")
         for op in case["ops"]:
-            ret = self._coll_add(s, op, log) if op["op"] == "coll_add" else impl1.step(s, op, log)
+            ret = self._local(s, op, log, case) if op["op"] in self.LOCAL else impl1.step(s, op, log)
             if observe:
-                outs.append({"ret": ret, "regs": [None if h is None else impl1.snap1(h) for h in s.regs]})
+                outs.append({"ret": ret, "regs": [None if h is None else snap(h) for h in s.regs]})
+            elif case.get("sparse"):
+                outs.append({"ret": ret, "regs": []})
+        last = {"ret": ret, "regs": [None if h is None else snap(h) for h in s.regs]}
+        if case.get("sparse"):
+            outs[-1] = last
+            return outs, log
         if observe:
             return outs, log
-        return {"ret": ret, "regs": [None if h is None else impl1.snap1(h) for h in s.regs]}
+        return last
 
     def run_impl(self, case):
-        if case.get("stream") != "refused_mid_history":
-            return super().run_impl(case)
         outs, log = self._run(case)
+        if case.get("sparse") or len(case["ops"]) < 2:
+            return {"outs": outs, "log": log}
         # (the second run reads nothing between the operations: see Hist1Prop.run_impl)
         return {"outs": outs, "log": log, "unobserved_outs": outs[:-1] + [self._run(case, observe=False)]}
 
     def model_case(self, case, io):
+        """the case as the Lean driver understands it; None = the model cannot express it (oracle only)"""
+        if case.get("sparse"):
+            return None
+        if case.get("stream") == "invalid_history":
+            # ops run here only (projection, write / read, array arithmetic, transformed classes): oracle only
+            if any((o["op"] in self.LOCAL and o["op"] != "lshift") or o.get("klass") for o in case["ops"]):
+                return None
+            # `h << v` is fill(v) with the default weight
+            return {**case, "ops": [({"op": "fill", "h": o["h"], "v": o["v"], "w": "1", "wk": "pyint"} if o["op"] == "lshift" else o)
+                                    for o in case["ops"]]}
         if case.get("stream") != "refused_mid_history" or not any(o["op"] == "coll_add" for o in case["ops"]):
             return case
         ops = []
@@ -455,8 +635,17 @@ class C14(Hist1Prop):
                 ops.append({"op": "invalid", "what": "coll_add", "h": op["h"]})
         return {**case, "ops": ops}
 
+    def diff(self, case, model_ok, io):
+        if case.get("stream") == "invalid_history" and isinstance(model_ok, list):
+            # `h << v` went to the model as fill(v), which answers with the bin; the operator answers nothing
+            model_ok = [({**m, "ret": "ok"} if op["op"] == "lshift" and isinstance(m, dict) and m.get("ret") != "REFUSED" else m)
+                        for op, m in zip(case["ops"], model_ok)] + list(model_ok[len(case["ops"]):])
+        return super().diff(case, model_ok, io)
+
     def tags(self, case, io):
         t = super().tags(case, io)
+        if case.get("stream") == "invalid_history":
+            t.append("kind:inv_through_model=" + ("no" if self.model_case(case, io) is None else "yes"))
         if case.get("stream") == "refused_mid_history":
             for op, o in zip(case["ops"], io["outs"]):
                 if op.get("refusal"):
@@ -464,15 +653,24 @@ class C14(Hist1Prop):
         return t
 
     @staticmethod
-    def stats_fails(st, pairs, where):
-        """the statistics `st` read from a histogram against the raw (value, weight) pairs entered: sums, extremes exactly
-        (dyadic data), the derived moments within rounding; pairs == INVALID: every number must read as NaN"""
-        if pairs == INVALID:
-            if st["valid"]:
-                return [f"not_invalidated: {where}: the statistics still read as valid numbers"]
-            if st.get("_numbers"):
-                return [f"not_invalidated: {where}: the statistics are invalid (weight NaN) but {st['_numbers']} still read as numbers"]
+    def invalid_fails(snapshot, where):
+        """statistics that must read as invalid: EVERY reading (weight, sum, sum2, min, max, median, mean(), variance(),
+        std()) must be NaN -- a finite extreme beside NaN sums is a wrong number"""
+        nums = numbers_of(snapshot)
+        if not nums:
             return []
+        if len(nums) == len(READINGS) or nums == ["weight/sum"]:
+            return [f"not_invalidated: {where}: the statistics still read as valid numbers ({', '.join(nums[:5])} ...)"]
+        return [f"not_invalidated: {where}: the statistics cannot be known here and must read as NaN throughout, but {', '.join(nums)}"
+                f" (the other readings are NaN)"]
+
+    @staticmethod
+    def stats_fails(st, pairs, where, snapshot=None, rtol=None):
+        """the statistics `st` read from a histogram against the raw (value, weight) pairs entered: sums exactly (dyadic
+        data; within the relative tolerance `rtol` where the weights are not dyadic), extremes exactly, the derived moments
+        within rounding; pairs == INVALID: every number must read as NaN"""
+        if pairs == INVALID:
+            return C14.invalid_fails(snapshot if snapshot is not None else {"stats": st}, where)
         if not st["valid"]:
             return [f"stats_invalid_history: {where}: the statistics read as invalid"]
 
@@ -487,7 +685,13 @@ class C14(Hist1Prop):
         S2 = sum((w * v * v for v, w in pairs), Fraction(0))
         for f, e in (("weight", W), ("sum", S), ("sum2", S2), ("min", min((v for v, _ in pairs), default=None)),
                      ("max", max((v for v, _ in pairs), default=None))):
-            if num(st[f]) != e:
+            got = num(st[f])
+            if rtol is not None and f in ("weight", "sum", "sum2"):
+                if not isinstance(got, Fraction) or abs(got - e) > rtol * abs(e):
+                    fails.append(f"stats_{f}_history: {where}: {f} = {st[f]} = {float(got) if isinstance(got, Fraction) else got!r}, the (value, weight) "
+                                 f"pairs entered give {float(e)!r} (relative difference "
+                                 f"{float(abs(got - e) / abs(e)) if isinstance(got, Fraction) and e else 'n/a'}, allowed {float(rtol)})")
+            elif got != e:
                 fails.append(f"stats_{f}_history: {where}: {f} = {st[f]}, the data entered by the accepted steps give {e}")
         if fails:
             return fails
@@ -574,12 +778,406 @@ class C14(Hist1Prop):
                 if pairs is None or snap is None:
                     continue
                 what = f"register {r} after step {k} ({name}" + (f", REFUSED: {op.get('refusal', '')}" if ret == "REFUSED" else "") + ")"
-                fails += self.stats_fails(snap["stats"], pairs, what)
+                fails += self.stats_fails(snap["stats"], pairs, what, snap)
+            if fails:
+                break
+        return fails[:5]
+
+    # ------------------------------------------------------------------ content type narrower than the weights
+    def gen_narrow_content(self, rng, large, dtype=None):
+        """the statistics are kept in double precision whatever the content type: histograms whose content dtype (float16,
+        float32, int16) is NARROWER than the weights given (float64 weights that float32 cannot hold: tenths, 2**24 + 1 ...)
+        or than the implicit unit weights (thousands of values, more than 2048 of them in one bin, so that a sum carried
+        in float16 would lose counts), built by h1(data, bins, weights=w, dtype=...) and by fill_n into an empty histogram of
+        that dtype in one chunk, in chunks, and value by value; then a sum, a copy, a rescaling.  The recorded weight / sum /
+        sum2 are the exact sums of the (value, weight) pairs (dyadic data and weights: exactly; tenths: to 1e-12), the
+        same for every content type and every chunking; min / max exactly."""
+        pairs = dy_bins(rng)
+        b = gen1.binning_json(pairs, rng=rng, form="pairs")
+        dt = dtype or rng.choice(["float32", "float32", "float16", "int16"])
+        if large:
+            heavy = rng.choice(pairs)
+            vals = inrange_values(rng, [heavy], rng.randint(2100, 2600)) + inrange_values(rng, pairs, rng.randint(50, 500))
+            rng.shuffle(vals)
+        else:
+            vals = inrange_values(rng, pairs, rng.choice([2, 3, 5, 8, 13]))
+        n = len(vals)
+        kinds = {"float32": ["none", "tenths", "tenths", "big_f", "big_i", "dyadic"],
+                 "float16": ["none", "none", "none", "tenths"] if large else ["none", "tenths", "tenths", "dyadic"],
+                 "int16": ["none"] if large else ["none", "small_int", "small_int"]}[dt]
+        wkind = rng.choice(kinds)
+        ws, wk, exact = None, None, True
+        if wkind == "tenths":           # decimal fractions: doubles that neither float32 nor float16 can hold
+            ws, wk, exact = [rng.choice([0.1, 0.2, 0.3, 0.7, 1.1]) for _ in range(n)], "float64", False
+        elif wkind in ("big_f", "big_i"):       # whole numbers just above 2**24: doubles / int64 that float32 cannot hold
+            ws, wk = [2**24 + rng.choice([1, 3, 5]) for _ in range(n)], "float64" if wkind == "big_f" else "int64"
+        elif wkind == "dyadic":
+            ws, wk = [rng.choice([0.5, 0.25, 2, 1.5]) for _ in range(n)], "float64"
+        elif wkind == "small_int":
+            ws, wk = [rng.choice([1, 2, 3]) for _ in range(n)], "int64"
+        src = {"binning": b, "vals": gen1.enc_vals(vals), "ws": None if ws is None else [rs(w) for w in ws], "wk": wk, "dtype": dt,
+               "large": bool(large), "exact": exact, "wkind": wkind,
+               "chunk": rng.choice([500, 500, 700, 300]) if large else rng.choice([2, 3, 5])}
+        return self.build_narrow(src)
+
+    @staticmethod
+    def build_narrow(src):
+        b, vals, ws, wk, dt = src["binning"], src["vals"], src["ws"], src["wk"], src["dtype"]
+        n = len(vals)
+        ops = [{"op": "construct", "out": 0, "binning": b, "data": vals, "weights": ws, "wkind": wk, "dtype": dt}]
+
+        def chunked(reg, c):
+            ops.append({"op": "empty", "out": reg, "binning": b, "dtype": dt})
+            if src["large"]:
+                ops.append({"op": "fill_chunks", "h": reg, "chunk": c, "data_of": 0})
+            else:
+                for a in range(0, max(n, 1), c):
+                    ops.append({"op": "fill_n", "h": reg, "vs": vals[a:a + c], "ws": None if ws is None else ws[a:a + c], "wkind": wk})
+        chunked(1, max(n, 1))       # one chunk
+        chunked(2, src["chunk"])
+        chunked(3, 1)               # value by value
+        ops.append({"op": "add", "a": 1, "b": 2, "out": 4})
+        ops.append({"op": "copy", "h": 0, "out": 5})
+        ops.append({"op": "mul", "h": 0, "c": "2", "k": "pyint", "out": 6})
+        case = {"kind": "hist1", "ops": ops, "stream": "narrow_content", "src": src, "tolerance": True,
+                "tags": ["stream:narrow_content", "kind:narrow_dtype=" + dt, "kind:narrow_weights=" + src.get("wkind", "?"),
+                         "kind:narrow_size=" + ("large" if src["large"] else "small")]}
+        if src["large"]:
+            case["sparse"] = True
+        return case
+
+    def oracle_narrow(self, case, io):
+        """the (value, weight) pairs every register holds, from the operations; the recorded statistics against their exact sums"""
+        src = case["src"]
+        rtol = None if src["exact"] else Fraction(1, 10**12)
+        c0 = case["ops"][0]
+        base = [(Fraction(v), Fraction(w)) for v, w in zip(c0["data"], c0["weights"] or ["1"] * len(c0["data"]))]
+        data, fails = {}, []
+        for k, (op, o) in enumerate(zip(case["ops"], io["outs"])):
+            name = op["op"]
+            if o["ret"] == "REFUSED":
+                return [f"refused_valid: step {k} ({name}, content type {src['dtype']}) was refused: " + "; ".join(io["log"][-1:])]
+            if name == "construct":
+                data[op["out"]] = list(base)
+            elif name == "empty":
+                data[op["out"]] = []
+            elif name == "fill_chunks":
+                data[op["h"]] = data[op["h"]] + base
+            elif name == "fill_n":
+                data[op["h"]] = data[op["h"]] + [(Fraction(v), Fraction(w)) for v, w in zip(op["vs"], op["ws"] or ["1"] * len(op["vs"]))]
+            elif name == "add":
+                data[op["out"]] = data[op["a"]] + data[op["b"]]
+            elif name == "copy":
+                data[op["out"]] = list(data[op["h"]])
+            elif name == "mul":
+                data[op["out"]] = [(v, w * Fraction(op["c"])) for v, w in data[op["h"]]]
+            how = {0: "h1(data, bins, weights, dtype)", 1: "fill_n, one chunk", 2: f"fill_n, chunks of {src['chunk']}", 3: "fill_n, value by value",
+                   4: "sum of the one-chunk and the chunked histogram", 5: "copy", 6: "2 * histogram"}
+            for r, pairs in data.items():
+                sn = o["regs"][r] if r < len(o["regs"]) else None
+                if sn is None:
+                    continue
+                what = (f"content type {src['dtype']}, weights {src.get('wkind')}: register {r} ({how.get(r, '')}) "
+                        + ("at the end of the history" if case.get("sparse") else f"after step {k} ({name})"))
+                fails += self.stats_fails(sn["stats"], pairs, what, sn, rtol)
+            if fails:
+                break
+        if not fails and src["ws"] is None and base and io["outs"][-1]["regs"]:
+            st0 = io["outs"][-1]["regs"][0]["stats"]
+            sv = sorted(v for v, _ in base)
+            m = len(sv)
+            med = sv[m // 2] if m % 2 else (sv[m // 2 - 1] + sv[m // 2]) / 2
+            if st0["valid"] and (st0["median"] is None or Fraction(st0["median"]) != med):
+                fails.append(f"median: content type {src['dtype']}: median after unweighted construction is {st0['median']}, data median is {med}")
+        return fails[:5]
+
+    # ------------------------------------------------------------------ invalid statistics stay invalid
+    def gen_invalid_history(self, rng):
+        """a histogram whose statistics cannot be known -- built from bare frequencies, a slice, a projection of a 2-D
+        histogram, read back from a dict / JSON, the result of a subtraction or of array arithmetic (free arithmetics), a
+        sum or copy of such -- followed by a HISTORY of everything that touches the statistics: fill (one value, several,
+        with and without weight), `h << x`, fill_n, + and += with partners built from data and partners without
+        statistics in both orders, * / *= /=, copy, merge_bins, set_dtype, normalize, write / read; on Histogram1D and on
+        the transformed 1-D classes (RadialHistogram, AzimuthalHistogram).  After EVERY step every reading of the
+        statistics of every such histogram (weight, sum, sum2, min, max, median, mean(), variance(), std()) must be NaN."""
+        klass = rng.choice([None, None, None, "RadialHistogram", "AzimuthalHistogram"])
+        plain_only = klass is None and rng.random() < 0.6        # only ops the Lean model has: the case goes through the model too
+        if klass is None:
+            pairs = dy_bins(rng)
+        else:
+            top = 6.25 if klass == "AzimuthalHistogram" else 16.0
+            e = [rng.choice([0.0, 0.0, 0.5, 1.0])]
+            for _ in range(rng.randint(2, 5)):
+                nxt = e[-1] + rng.choice([0.5, 1.0, 1.5, 2.0])
+                if nxt > top:
+                    break
+                e.append(nxt)
+            if len(e) < 3:
+                e = [0.0, 1.0, 2.0, 4.0]
+            pairs = [[e[i], e[i + 1]] for i in range(len(e) - 1)]
+        state = {"pairs": pairs}
+        ops, nreg = [], [0]
+
+        def bj():
+            p = state["pairs"]
+            consecutive = all(p[i][1] == p[i + 1][0] for i in range(len(p) - 1))
+            return gen1.binning_json(p, form=rng.choice(["pairs", "static_obj"] + (["numpy_obj"] if consecutive else [])))
+
+        def new():
+            r = nreg[0]; nreg[0] += 1
+            return r
+
+        def coord():        # a coordinate strictly inside a bin
+            l, r = rng.choice(state["pairs"])
+            return l + (r - l) * rng.choice([1, 2, 3, 4, 5, 6, 7]) / 8
+
+        def point(c):       # a point of the plane whose radius / azimuth is (to rounding) the coordinate c
+            if klass == "RadialHistogram":
+                return [rs(c * 0.6), rs(c * 0.8)]
+            rho = rng.choice([1.0, 2.0, 0.5])
+            return [rs(rho * math.cos(c)), rs(rho * math.sin(c))]
+
+        def wts(n, p_none=0.5):
+            return None if rng.random() < p_none else [rs(rng.choice([1, 2, 0.5, 0.25])) for _ in range(n)]
+
+        def from_data(n=None, weights=True):
+            """a histogram over the current bins built from data (valid statistics)"""
+            n = n or rng.choice([1, 2, 3, 5])
+            r = new()
+            ws = wts(n, 0.6) if weights else None
+            if klass is None:
+                ops.append({"op": "construct", "out": r, "binning": bj(), "data": gen1.enc_vals([coord() for _ in range(n)]), "weights": ws,
+                            "wkind": "float64" if ws else None})
+            else:
+                ops.append({"op": "construct_t", "klass": klass, "out": r, "binning": bj(), "ps": [point(coord()) for _ in range(n)],
+                            "weights": ws, "wkind": "float64" if ws else None})
+            return r
+
+        def bare(dtype=None):
+            """a histogram over the current bins built from bare frequencies (no statistics)"""
+            r = new()
+            dtype = dtype or rng.choice(["int64", "int64", "float64"])
+            ops.append({"op": "of_arrays", "out": r, "binning": bj(), "freq": [rs(rng.randint(0, 5)) for _ in state["pairs"]], "err2": None,
+                        "under": "0", "over": "0", "inner": "0", "dtype": dtype, **({"klass": klass} if klass else {})})
+            return r
+
+        # --- where the unknown statistics come from
+        sources = ["bare", "bare", "slice", "sub", "sum_of", "copy_of"] + ([] if plain_only else ["proj", "proj", "reload", "reload", "array", "array"])
+        source = rng.choice(sources)
+        if source == "slice" and len(pairs) < 2:
+            source = "bare"
+        if source == "bare":
+            cur = bare()
+        elif source == "slice":
+            a = from_data(rng.choice([2, 3, 5]))
+            n = len(pairs)
+            start, stop = rng.choice([(1, None), (0, n - 1), (1, n)] if n > 2 else [(1, None), (0, n - 1)])
+            cur = new()
+            ops.append({"op": "slice", "h": a, "start": start, "stop": stop, "out": cur})
+            state["pairs"] = pairs[start:stop]
+        elif source == "sub":
+            a = from_data(rng.choice([3, 5]), weights=False)
+            first = ops[-1]
+            b_ = new()      # the same bins, one of the same values: nothing goes negative
+            if klass is None:
+                ops.append({**first, "out": b_, "data": first["data"][:1]})
+            else:
+                ops.append({**first, "out": b_, "ps": first["ps"][:1]})
+            cur = new()
+            ops.append({"op": "sub", "a": a, "b": b_, "out": cur, **({"free": True} if rng.random() < 0.3 else {})})
+        elif source == "sum_of":
+            x, y = bare(), from_data()
+            cur = new()
+            a_, b_ = (x, y) if rng.random() < 0.5 else (y, x)
+            ops.append({"op": "add", "a": a_, "b": b_, "out": cur})
+        elif source == "copy_of":
+            x = bare()
+            cur = new()
+            ops.append({"op": "copy", "h": x, "out": cur})
+        elif source == "proj":
+            cur = new()
+            if klass is None:
+                other = dy_bins(rng)
+                axis = rng.choice([0, 1])
+                ps = []
+                for _ in range(rng.choice([1, 3, 5])):
+                    l, r = rng.choice(other)
+                    o_ = l + (r - l) * rng.choice([1, 3, 5]) / 8
+                    ps.append([rs(coord()), rs(o_)] if axis == 0 else [rs(o_), rs(coord())])
+                bins = [gen1.binning_json(pairs, form="static_obj"), gen1.binning_json(other, form="static_obj")]
+                ops.append({"op": "nd_proj", "klass": "h2", "out": cur, "ps": ps, "bins": bins if axis == 0 else bins[::-1], "axis": axis})
+            else:
+                radial = klass == "RadialHistogram"
+                rb = pairs if radial else [[0.0, 1.0], [1.0, 2.0], [2.0, 4.0]]
+                pb = pairs if not radial else [[0.0, 1.5], [1.5, 3.0], [3.0, 4.5], [4.5, 6.5]]
+                ps = []
+                for _ in range(rng.choice([1, 3, 5])):
+                    r_ = coord() if radial else rng.choice([0.5, 1.5, 3.0])
+                    f_ = coord() if not radial else rng.choice([0.5, 2.0, 4.0, 5.0])
+                    ps.append([rs(r_ * math.cos(f_)), rs(r_ * math.sin(f_))])
+                ops.append({"op": "nd_proj", "klass": "polar", "out": cur, "ps": ps, "axis": "r" if radial else "phi",
+                            "bins": [gen1.binning_json(rb, form="static_obj"), gen1.binning_json(pb, form="static_obj")]})
+        elif source == "reload":
+            x = bare()
+            cur = new()
+            ops.append({"op": "reload", "h": x, "out": cur, "via": rng.choice(["dict", "json"])})
+        else:       # array arithmetic (free arithmetics) on a histogram built from data
+            a = from_data(rng.choice([2, 3, 5]))
+            kind = rng.choice(["mul", "add", "div", "sub"])
+            n = len(pairs)
+            arr = {"mul": [rs(rng.choice([1, 2, 3])) for _ in range(n)], "add": [rs(rng.choice([0, 1, 2])) for _ in range(n)],
+                   "div": [rs(rng.choice([1, 2, 4])) for _ in range(n)], "sub": ["0"] * n}[kind]
+            op = {"op": "array_arith", "h": a, "kind": kind, "arr": arr, "ak": rng.choice(["int64", "float64"])}
+            if rng.random() < 0.4:
+                op["inplace"] = True
+                cur = a
+            else:
+                cur = new()
+                op["out"] = cur
+            ops.append(op)
+
+        # --- the history
+        def fill_op(h):
+            wt = rng.choice([1, 1, 1, 2, 0.5, 3])
+            extra = {"w": rs(wt), "wk": "pyint" if isinstance(wt, int) else "pyfloat", "default_w": wt == 1 and rng.random() < 0.6}
+            c = coord()
+            return {"op": "fill", "h": h, "v": rs(c), **extra} if klass is None else {"op": "fill_pt", "h": h, "p": point(c), **extra}
+
+        kinds = ["fill", "fill", "fill", "fill_several", "lshift", "fill_n", "fill_n", "add_valid", "radd_valid", "add_invalid", "radd_invalid",
+                 "iadd_valid", "iadd_invalid", "into_valid", "scale", "scale", "copy", "merge", "set_dtype", "normalize"]
+        if not plain_only:
+            kinds += ["reload", "array"]
+        for _ in range(rng.randint(3, 7)):
+            kind = rng.choice(kinds)
+            if kind == "fill":
+                ops.append(fill_op(cur))
+            elif kind == "fill_several":
+                for _ in range(rng.choice([2, 3])):
+                    ops.append(fill_op(cur))
+            elif kind == "lshift":
+                c = coord()
+                ops.append({"op": "lshift", "h": cur, **({"v": rs(c)} if klass is None else {"p": point(c)})})
+            elif kind == "fill_n":
+                m = rng.choice([0, 1, 2, 4])
+                cs = [coord() for _ in range(m)]
+                if klass is None:
+                    ops.append({"op": "fill_n", "h": cur, "vs": gen1.enc_vals(cs), "ws": wts(m), "wkind": "float64"})
+                else:
+                    ops.append({"op": "fill_n_pts", "h": cur, "ps": [point(c) for c in cs], "ws": wts(m), "wkind": "float64"})
+            elif kind in ("add_valid", "radd_valid", "add_invalid", "radd_invalid"):
+                o_ = from_data() if kind.endswith("_valid") else bare()
+                out = new()
+                a_, b_ = (cur, o_) if kind.startswith("add") else (o_, cur)
+                ops.append({"op": "add", "a": a_, "b": b_, "out": out})
+                if rng.random() < 0.6:
+                    cur = out
+            elif kind in ("iadd_valid", "iadd_invalid"):
+                o_ = from_data() if kind.endswith("_valid") else bare()
+                ops.append({"op": "iadd", "h": cur, "o": o_})
+            elif kind == "into_valid":      # a histogram built from data takes the one without statistics in: its own are lost
+                o_ = from_data()
+                ops.append({"op": "iadd", "h": o_, "o": cur})
+                if rng.random() < 0.6:
+                    cur = o_
+            elif kind == "scale":
+                c = rng.choice([2, 4, 0.5, 0.25])
+                name = rng.choice(["mul", "div", "imul", "idiv"])
+                op = {"op": name, "h": cur, "c": rs(c), "k": rng.choice(["pyint", "int64"]) if isinstance(c, int) else rng.choice(["pyfloat", "float64"])}
+                if name in ("mul", "div"):
+                    op["out"] = new()
+                    if name == "mul" and rng.random() < 0.3:
+                        op["reflected"] = True
+                    ops.append(op)
+                    if rng.random() < 0.7:
+                        cur = op["out"]
+                else:
+                    ops.append(op)
+            elif kind == "copy":
+                out = new()
+                ops.append({"op": "copy", "h": cur, "out": out})
+                if rng.random() < 0.6:
+                    cur = out
+            elif kind == "merge":
+                p = state["pairs"]
+                if len(p) >= 2 and all(p[i][1] == p[i + 1][0] for i in range(len(p) - 1)):
+                    inplace = rng.random() < 0.5
+                    op = {"op": "merge", "h": cur, "amount": 2, "inplace": inplace}
+                    if not inplace:
+                        op["out"] = new()
+                    ops.append(op)
+                    cur = op.get("out", cur)
+                    state["pairs"] = [[p[i][0], p[min(i + 1, len(p) - 1)][1]] for i in range(0, len(p), 2)]
+                else:
+                    ops.append(fill_op(cur))
+            elif kind == "set_dtype":
+                # (whether a rounded quotient is integral is not pinned: no integer type once something was normalised)
+                ops.append({"op": "set_dtype", "h": cur, "dtype": rng.choice(["float64", "float64", "float32"] + ([] if state.get("normalized") else ["int64"])),
+                            "via_property": rng.random() < 0.5})
+            elif kind == "normalize":
+                state["normalized"] = True
+                ops.append({"op": "normalize", "h": cur, "inplace": True})
+            elif kind == "reload":
+                out = new()
+                ops.append({"op": "reload", "h": cur, "out": out, "via": rng.choice(["dict", "json"])})
+                cur = out
+            else:
+                n = len(state["pairs"])
+                ops.append({"op": "array_arith", "h": cur, "kind": "mul", "arr": [rs(rng.choice([1, 2])) for _ in range(n)], "ak": "int64",
+                            "out": new()})
+                cur = ops[-1]["out"]
+        ops.append(fill_op(cur))        # whatever came before, the caller goes on filling
+        c = coord()
+        return {"kind": "hist1", "ops": ops, "stream": "invalid_history", "tolerance": True,
+                "probe": {"v": rs(c)} if klass is None else {"p": point(c)},
+                "tags": ["stream:invalid_history", "kind:inv_source=" + source, "kind:inv_class=" + (klass or "Histogram1D")]}
+
+    # ops after which the statistics of the result cannot be known, whatever the operands
+    INVALIDATING = ("of_arrays", "nd_proj", "slice", "mask", "index_array", "sub", "isub", "array_arith")
+    KEEPING = ("fill", "fill_pt", "lshift", "fill_n", "fill_n_pts", "mul", "div", "imul", "idiv", "copy", "merge", "set_dtype", "normalize", "reload")
+
+    def oracle_invalid_history(self, case, io):
+        """per register: "inv" (statistics cannot be known: built from bare frequencies / a slice / a projection / a
+        subtraction / array arithmetic, or derived from such a histogram by ANY later operation), "val" (built from data only)
+        or not followed.  The library's own answer decides what happened (a refused step changes nothing).  After every
+        step every reading of every "inv" register must be NaN.  Refusals are not judged here (other streams do)."""
+        state, fails = {}, []
+        for k, (op, o) in enumerate(zip(case["ops"], io["outs"])):
+            name, ret = op["op"], o["ret"]
+            if ret != "REFUSED":
+                tgt = op.get("out", op.get("h"))
+                if name in ("construct", "construct_t", "empty", "empty_t"):
+                    state[tgt] = "val"
+                elif name in self.INVALIDATING:
+                    state[tgt] = "inv"
+                elif name in ("add", "iadd"):
+                    x, y = (state.get(op["a"]), state.get(op["b"])) if name == "add" else (state.get(op["h"]), state.get(op["o"]))
+                    state[tgt] = "inv" if "inv" in (x, y) else "val" if (x, y) == ("val", "val") else None
+                elif name in self.KEEPING:
+                    src_state = state.get(op["h"])
+                    if name == "reload" and src_state == "val":
+                        src_state = None        # (whether the statistics are written is the library's choice)
+                    if name in ("mul", "div", "imul", "idiv") and Fraction(op["c"]) <= 0:
+                        src_state = None
+                    state[tgt] = src_state
+                else:
+                    state[tgt] = None
+            for r, st in state.items():
+                sn = o["regs"][r] if r < len(o["regs"]) else None
+                if st != "inv" or sn is None:
+                    continue
+                cls = sn.get("_class", "")
+                fails += self.invalid_fails(sn, f"{cls} register {r} after step {k} ({name}" + (", REFUSED" if ret == "REFUSED" else "") + ")")
             if fails:
                 break
         return fails[:5]
 
     def gen_case(self, rng, k, tier):
+        if ENABLE_INVALID_HISTORY and k % 12 == 5:
+            return self.gen_invalid_history(rng)
+        if ENABLE_NARROW_CONTENT and k % 24 == 11:
+            if k % 72 == 35:        # thousands of values: float16, float32, int16 in turn
+                return self.gen_narrow_content(rng, True, NARROW_LARGE_DTYPES[(k // 72) % len(NARROW_LARGE_DTYPES)])
+            return self.gen_narrow_content(rng, False)
         if ENABLE_REFUSED_MID and k % 6 == 3:
             return self.gen_refused_mid(rng)
         if k % 12 == 7:
@@ -599,6 +1197,7 @@ class C14(Hist1Prop):
                "scale": rs(rng.choice([2, 4, 0.5, 0.25, 3])),
                "tail": rng.choice(["sub", "sub_free", "of_arrays", "slice", "add_invalid", "add_invalid", "none", "none"])}
         src["sk"] = rng.choice(["pyint", "int64", "int32", "pyfloat"] if "/" not in src["scale"] else ["pyfloat", "float32", "float64"])
+        src["fill_after"] = True
         return self.build(src)
 
     @staticmethod
@@ -642,9 +1241,54 @@ class C14(Hist1Prop):
         elif src["tail"] == "of_arrays":
             ops.append({"op": "of_arrays", "out": 8, "binning": b, "freq": ["1"] * len(b["bins"]), "err2": None,
                         "under": "0", "over": "0", "inner": "0", "dtype": "int64"})
+        if src["tail"] != "none" and src.get("fill_after"):
+            # the caller goes on filling the histograms whose statistics cannot be known: they stay unknown (every reading NaN)
+            l, r = b["bins"][0]
+            v = vals[0] if vals and vals[0] is not None else rs((Fraction(l) + Fraction(r)) / 2)
+            for reg in sorted({o["out"] for o in ops if o.get("out", 0) >= 8}):
+                ops.append({"op": "fill", "h": reg, "v": v, "w": "1", "wk": "pyint", "default_w": True})
         return {"kind": "hist1", "ops": ops, "tags": ["tail:" + src["tail"]], "src": src}
 
     def shrink_candidates(self, case):
+        if case.get("stream") == "narrow_content":
+            # fewer values (blocks, then single ones for small cases), always rebuilt from the source description
+            src = case["src"]
+            n = len(src["vals"])
+            size = n // 2
+            while size >= 1:
+                for a in range(0, n, size):
+                    if size == 1 and n > 40:
+                        break
+                    s2 = copy.deepcopy(src)
+                    del s2["vals"][a:a + size]
+                    if s2["ws"] is not None:
+                        del s2["ws"][a:a + size]
+                    if s2["vals"]:
+                        yield self.build_narrow(s2)
+                size //= 2
+            if src["large"] and n <= 40:
+                yield self.build_narrow({**copy.deepcopy(src), "large": False, "chunk": min(src["chunk"], 5)})
+            return
+        if case.get("stream") == "invalid_history":
+            # drop a step (every register used later must still have been created)
+            def refs(o):
+                return [o[x] for x in ("h", "a", "b", "o") if x in o]
+            for k in range(len(case["ops"]) - 1, -1, -1):
+                c = copy.deepcopy(case)
+                del c["ops"][k]
+                if c["ops"] and all(set(refs(o)) <= self._defined(c["ops"][:i]) for i, o in enumerate(c["ops"])):
+                    yield c
+            for k, op in enumerate(case["ops"]):
+                for key, wkey in (("data", "weights"), ("vs", "ws"), ("ps", "ws")):
+                    if op["op"] in ("nd_proj",) or (key == "ps" and op["op"] == "construct_t"):
+                        continue
+                    for j in range(len(op.get(key) or [])):
+                        c = copy.deepcopy(case)
+                        del c["ops"][k][key][j]
+                        if c["ops"][k].get(wkey) is not None and len(c["ops"][k][wkey]) > j:
+                            del c["ops"][k][wkey][j]
+                        yield c
+            return
         if case.get("stream") == "refused_mid_history":
             # drop a step (every register used later must still have been created), then single values of the batches
             def refs(o):
@@ -696,6 +1340,10 @@ class C14(Hist1Prop):
     def oracle(self, case, io):
         if case.get("stream") == "refused_mid_history":
             return self.oracle_refused_mid(case, io)
+        if case.get("stream") == "narrow_content":
+            return self.oracle_narrow(case, io)
+        if case.get("stream") == "invalid_history":
+            return self.oracle_invalid_history(case, io)
         if case.get("mixed"):
             return self.oracle_mixed(case, io)
         outs = io["outs"]
@@ -759,19 +1407,34 @@ class C14(Hist1Prop):
             if st0["median"] is None or Fraction(st0["median"]) != med:
                 fails.append(f"median: median after unweighted construction is {st0['median']}, data median is {med}")
         if src["tail"] != "none" and len(regs) > 8 and regs[8] is not None:
-            for r in (8, 9, 10):
-                if r < len(regs) and regs[r] is not None:
-                    st = regs[r]["stats"]
-                    what = src["tail"] if r == 8 else ("adding a histogram without statistics" + (" (on the right)" if r == 9 else " (on the left)"))
-                    if st["valid"]:
-                        fails.append(f"not_invalidated: statistics still read as valid numbers after {what}")
-                    elif st.get("_numbers"):
-                        fails.append(f"not_invalidated: after {what} the statistics are invalid (weight NaN) but {st['_numbers']} still read as numbers")
+            # from the operation that cannot maintain the statistics on, after every step (the fills that follow included)
+            for k, (op, o) in enumerate(zip(case["ops"], outs)):
+                for r in (8, 9, 10):
+                    if r < len(o["regs"]) and o["regs"][r] is not None:
+                        what = (("construction from bare frequencies" if src["tail"] in ("add_invalid", "of_arrays") else src["tail"]) if r == 8
+                                else "adding a histogram without statistics" + (" (on the right)" if r == 9 else " (on the left)"))
+                        fails += self.invalid_fails(o["regs"][r], f"register {r} ({what}) after step {k} ({op['op']})")
+                if len(fails) > 6:
+                    break
         return fails[:6]
 
     def neighbours(self, case):
         """around a history with refusals: the history cut right after each refused step, the caller then entering one more
         value into every histogram that exists (reading the statistics after the refusal and after the next accepted step)"""
+        if case.get("stream") == "narrow_content":
+            # the same data and weights with the other content types (and the float64 / default ones)
+            return [self.build_narrow({**copy.deepcopy(case["src"]), "dtype": dt}) for dt in ("float16", "float32", "int16", "float64")
+                    if dt != case["src"]["dtype"] and not (dt == "int16" and case["src"]["wk"] == "float64")]
+        if case.get("stream") == "invalid_history":
+            # the history cut after each step, the caller then filling every histogram that exists (single value)
+            out = []
+            pr = case.get("probe") or {}
+            for k in range(len(case["ops"])):
+                head = copy.deepcopy(case["ops"][:k + 1])
+                tail = [({"op": "fill", "h": r, "v": pr["v"], "w": "1", "wk": "pyint", "default_w": True} if "v" in pr else
+                         {"op": "fill_pt", "h": r, "p": pr["p"], "w": "1", "wk": "pyint", "default_w": True}) for r in sorted(self._defined(head))]
+                out.append({**copy.deepcopy({k_: v_ for k_, v_ in case.items() if k_ != "ops"}), "ops": head + tail})
+            return out
         if case.get("stream") != "refused_mid_history":
             return []
         out = []
@@ -793,6 +1456,10 @@ class C14(Hist1Prop):
             return bool(ks) and any(k < ks[0] for k in enters) and any(k > ks[0] for k in enters)
         if case.get("mixed"):
             return sum(1 for o in case["ops"] if o["op"] in ("fill", "fill_n", "construct")) >= 2
+        if case.get("stream") == "invalid_history":
+            # something was really entered into / added to a histogram without statistics
+            return any(op["op"] in ("fill", "fill_pt", "lshift", "fill_n", "fill_n_pts", "add", "iadd") and o["ret"] != "REFUSED"
+                       for op, o in zip(case["ops"][1:], io["outs"][1:]))
         return len(set(case["src"]["vals"])) >= 2
 
 
